@@ -239,7 +239,7 @@ class EnumGen:
 
     def __init__(self, e: ESpec, strum_path='strum'):
         self.e = e
-        self.sp = strum_path
+        self.sp = strum_path if strum_path != 'strum' else e.extra.get('strum_path', 'strum')
         if self.palette_map:
             import copy
             self.e = e = copy.deepcopy(e)
